@@ -132,6 +132,9 @@ struct S {
     // monitor bookkeeping (the implementation's own trace)
     finding: Option<(String, String)>,
     last_disc_change: Option<u64>,
+    /// denom of the factory minimum when this case's minter was created (to tell the recorded governance denom-switch history
+    /// apart from any other way of ending up with a price in the wrong denom)
+    fmin_denom_at_create: Option<u64>,
     dust: bool,
 }
 
@@ -161,6 +164,7 @@ impl S {
             proofs,
             finding: None,
             last_disc_change: None,
+            fmin_denom_at_create: None,
             dust: false,
         }
     }
@@ -368,6 +372,7 @@ impl Sut for S {
         self.mints_ok = 0;
         self.finding = None;
         self.last_disc_change = None;
+        self.fmin_denom_at_create = None;
         (header.to_string(), "case".to_string())
     }
 
@@ -482,6 +487,7 @@ impl Sut for S {
             match op {
                 "create" => {
                     let p = (kv_u64(line, "d").unwrap(), kv_u128(line, "p").unwrap());
+                    self.fmin_denom_at_create = Some(fmin.0);
                     if p.1 < fmin.1 {
                         self.flag("create", "below-floor", format!("minter created with price {} below factory minimum {}", rc(&p), rc(&fmin)));
                     }
@@ -497,7 +503,10 @@ impl Sut for S {
                     }
                     if let Some(s) = set {
                         if s.0 != fmin.0 {
-                            self.flag(op, "denom-differs-from-factory-min", format!("price {} set while the factory minimum in force is {}", rc(&s), rc(&fmin)));
+                            // the one recorded finding is the history "governance switched the factory minimum's denom after
+                            // this minter was created"; a mismatch with no such switch is a different (new) violation
+                            let pred = if self.fmin_denom_at_create.is_some() && self.fmin_denom_at_create != Some(fmin.0) { "denom-differs-from-factory-min-after-governance-denom-switch" } else { "denom-differs-from-factory-min" };
+                            self.flag(op, pred, format!("price {} set while the factory minimum in force is {}", rc(&s), rc(&fmin)));
                         }
                     }
                 }
@@ -625,7 +634,7 @@ fn main() {
     }
     let mut rng = ses.rng.fork();
     let denom_switch = std::env::var("C07_DENOM_SWITCH").map(|v| v == "1").unwrap_or(false)
-        || load_known("C07").iter().any(|k| k.key.ends_with("denom-differs-from-factory-min"));
+        || load_known("C07").iter().any(|k| k.key.ends_with("denom-differs-from-factory-min-after-governance-denom-switch"));
 
     // ------------------------------------------------------------------ 0. fixed corpus: the repaired defect F-C07 and boundary walks
     for kind in VENDING_KINDS {
